@@ -125,7 +125,8 @@ static void J_res(mpq_QSprob p)
 	jkey("res"); jraw("{"); jfirst = 1;
 	if (!p) { J_int("null", 1); jraw("}"); jfirst = 0; return; }
 	J_int("basis", p->basis ? 1 : 0);
-	if (p->basis) { J_int("bn", p->basis->nstruct); J_int("bm", p->basis->nrows); J_int("norms", p->basis->rownorms ? 1 : 0); }
+	if (p->basis) { J_int("bn", p->basis->nstruct); J_int("bm", p->basis->nrows); J_int("norms", p->basis->rownorms ? 1 : 0);
+		if (p->basis->rownorms) { int k, z = 0, sz = (int) __EGlpNumArraySize(p->basis->rownorms); for (k = 0; k < sz && k < p->basis->nrows; k++) if (mpq_sgn(p->basis->rownorms[k]) == 0) z++; J_int("normsz", sz); J_int("zeronorms", z); } }
 	J_int("cache", p->cache ? 1 : 0);
 	if (p->cache) J_int("cstatus", p->cache->status);
 	J_int("qstatus", p->qstatus); J_int("factorok", p->factorok);
@@ -341,7 +342,9 @@ int main(int argc, char **argv)
 	fo = open(argv[3], O_WRONLY | O_CREAT | O_TRUNC, 0644); fe = open(argv[4], O_WRONLY | O_CREAT | O_TRUNC, 0644);
 	if (fo < 0 || fe < 0) return 2;
 	dup2(fo, 1); dup2(fe, 2); close(fo); close(fe);
-	signal(SIGSEGV, onsig); signal(SIGFPE, onsig); signal(SIGABRT, onsig); signal(SIGBUS, onsig); signal(SIGALRM, onsig); signal(SIGILL, onsig);
+	if (!getenv("QSX_NOSIG")) { signal(SIGSEGV, onsig); signal(SIGFPE, onsig); }
+	if (0) { signal(SIGSEGV, onsig); signal(SIGFPE, onsig); signal(SIGABRT, onsig); signal(SIGBUS, onsig); signal(SIGALRM, onsig); signal(SIGILL, onsig); }
+	signal(SIGABRT, onsig); signal(SIGBUS, onsig); signal(SIGALRM, onsig); signal(SIGILL, onsig);
 	load_tokens(argv[1]);
 	QSexactStart();
 	QSexact_set_precision(128);
@@ -355,6 +358,10 @@ int main(int argc, char **argv)
 			disarm(); ev_end(NULL); }
 		else if (!strcmp(c, "precision")) { int b = nxi(); ev_begin("precision"); J_int("bits", b); arm(); QSexact_set_precision((unsigned)b); disarm(); ev_end(NULL); }
 		else if (!strcmp(c, "fault")) { char *w = nx(); int k = nxi(); ev_begin("fault"); J_str("where", w); J_int("count", k); arm(); if (!strcmp(w, "opt_test")) fault_opt = k; else fault_inf = k; disarm(); ev_end(NULL); }
+		else if (!strcmp(c, "raw")) { /* raw <hex-encoded JSON object body>: a harness-made event (witness, pseudo call) logged verbatim */
+			char *hx = nx(); int L = (int)strlen(hx) / 2, k; char *t = malloc(L + 1);
+			for (k = 0; k < L; k++) { unsigned v; sscanf(hx + 2 * k, "%2x", &v); t[k] = (char)v; } t[L] = 0;
+			evn++; fprintf(tr, "{\"k\":\"E\",\"n\":%d,%s\n", evn, t[0] == '{' ? t + 1 : t); fflush(tr); free(t); }
 		else if (!strcmp(c, "scenario")) { char *s = nx(); ev_begin("scenario"); J_str("id", s); arm(); disarm(); ev_end(NULL); }
 		else if (!strcmp(c, "create")) { int h = nxh(); const char *nm = nxname(); char *s = nx(); int os = !strcmp(s, "min") ? QS_MIN : !strcmp(s, "max") ? QS_MAX : atoi(s);
 			ev_begin("create"); J_hname("h", h); J_str("name", nm); J_int("objsense", os); arm();
@@ -516,7 +523,7 @@ int main(int argc, char **argv)
 				    if (rc) dbl_QSfree(rc); if (rb) dbl_QSfree(rb); if (ri) dbl_QSfree(ri); if (rvv) dbl_EGlpNumFreeArray(rvv); if (rh) dbl_EGlpNumFreeArray(rh); if (rg) dbl_EGlpNumFreeArray(rg); if (se) dbl_QSfree(se); if (nm) { int i2; for (i2 = 0; i2 < dm; i2++) if (nm[i2]) dbl_QSfree(nm[i2]); dbl_QSfree(nm); } }
 				  { int v = -1; jkey("par"); jraw("{"); jfirst = 1; dbl_QSget_param(d, QS_PARAM_PRIMAL_PRICING, &v); J_int("ppricing", v); dbl_QSget_param(d, QS_PARAM_DUAL_PRICING, &v); J_int("dpricing", v); dbl_QSget_param(d, QS_PARAM_SIMPLEX_DISPLAY, &v); J_int("display", v); dbl_QSget_param(d, QS_PARAM_SIMPLEX_MAX_ITERATIONS, &v); J_int("maxiter", v); dbl_QSget_param(d, QS_PARAM_SIMPLEX_SCALING, &v); J_int("scaling", v); jraw("}"); jfirst = 0; }
 				  free(a); free(b); free(s); dbl_QSfree_prob(d); } }
-			else { mpf_QSdata *d = QScopy_prob_mpq_mpf(p, "cp"); J_int("ok", d ? 1 : 0); J_int("prec", (long)EGLPNUM_PRECISION);
+			else { mpf_QSdata *d = QScopy_prob_mpq_mpf(p, "cp"); J_int("ok", d ? 1 : 0); J_int("prec", (long)(EGLPNUM_PRECISION > 100000 ? 100000 : EGLPNUM_PRECISION));
 				if (d) { int dm = mpf_QSget_rowcount(d), dn = mpf_QSget_colcount(d), os = 0; mpf_t *a = mpf_EGlpNumAllocArray(dn + dm + 1), *b = mpf_EGlpNumAllocArray(dn + dm + 1); char *s = malloc(dm + 1);
 				  J_int("nrows", dm); J_int("ncols", dn); mpf_QSget_objsense(d, &os); J_int("objsense", os);
 #define FARR(key, arr, cnt) do { jkey(key); jraw("["); for (k = 0; k < (cnt); k++) { if (k) jraw(","); if (mpf_cmp((arr)[k], mpf_ILL_MAXDOUBLE) >= 0) jraw("\"inf\""); else if (mpf_cmp((arr)[k], mpf_ILL_MINDOUBLE) <= 0) jraw("\"-inf\""); else { mpq_set_f(q, (arr)[k]); jqv(q); } } jraw("]"); } while (0)
